@@ -94,13 +94,15 @@ def split_traces(evs):
     return [(s, (starts[k + 1] if k + 1 < len(starts) else len(evs))) for k, s in enumerate(starts)]
 
 
-def selftest(evs, sc, want):
+def selftest(evs, sc, want, skip=()):
     """binding self-test: corrupt real traces in ways that break exactly one promise each; the monitor must object.
     want: list of (name, picker, mutator, expected invariant)"""
     done = []
     for name, pick, mutate, inv in want:
         hit = None
-        for (s, e) in split_traces(evs):
+        for ti, (s, e) in enumerate(split_traces(evs)):
+            if ti + 1 in skip:
+                continue    # a trace the monitor rejected (listed finding) is no basis for a corruption test
             tr = evs[s:e]
             k = pick(tr)
             if k is not None:
@@ -294,7 +296,7 @@ def body(PROP, plan):
             res.finish()
 
         # binding self-test
-        st_done = selftest(evs, sc, COMMON_SELFTESTS + plan.get("selftests", []))
+        st_done = selftest(evs, sc, COMMON_SELFTESTS + plan.get("selftests", []), skip={v["t"] for v in info["violations"]})
 
         nproc = sum(1 for e in evs if e["ev"] == "process" and e["ok"])
         nontriv = sum(1 for e in evs if e["ev"] == "process" and e["ok"] and e["evs"])
